@@ -45,6 +45,8 @@ func c15(args []string) error {
 			for j := range b {
 				if r.Intn(4) == 0 {
 					b[j] = "ACGT-N"[r.Intn(6)]
+				} else if r.Intn(12) == 0 {
+					b[j] = ".*.a"[r.Intn(4)] // match characters, stops, lower case
 				}
 			}
 			seqs[k] = string(b)
